@@ -175,6 +175,8 @@ type NodeOpts struct {
 
 // Node is a running (or stopped) daemon instance bound to a database file.
 type Node struct {
+	stopMu sync.Mutex
+	stop   func()
 	P      *node.Pegnetd
 	Fake   *FakeNode
 	Conf   *viper.Viper
@@ -251,6 +253,17 @@ func OpenNode(dbPath string, era Era, chain *Chain, opts NodeOpts) (*Node, error
 	n.conn = NewHookConnector(dsn, hv)
 	p.Pegnet.DB = sql.OpenDB(n.conn)
 	return n, nil
+}
+
+// StopSync cancels the context of the running DBlockSync (what the daemon's signal handler does
+// on SIGINT/SIGTERM): a graceful stop, possibly in the middle of a block.
+func (n *Node) StopSync() {
+	n.stopMu.Lock()
+	s := n.stop
+	n.stopMu.Unlock()
+	if s != nil {
+		s()
+	}
 }
 
 // Close closes the database pool and every connection (like process exit).
@@ -330,6 +343,9 @@ func (n *Node) SyncTo(target uint32, o SyncOpts) SyncResult {
 	collector.take()
 	ctx, cancel := context.WithCancel(context.Background())
 	defer cancel()
+	n.stopMu.Lock()
+	n.stop = cancel
+	n.stopMu.Unlock()
 	var res SyncResult
 	last := n.P.Sync.Synced
 	lastTip := last
